@@ -263,6 +263,11 @@ def _ite_val(g, a, b, memo):
         return a
     if isinstance(a, Agg) and isinstance(b, Agg) and len(a.fields) == len(b.fields):
         return Agg([ite_val(g, x, y, memo) for x, y in zip(a.fields, b.fields)], a.tag)
+    if isinstance(a, Agg) and isinstance(b, Agg) and a.tag == 'vecitems' and b.tag == 'vecitems':
+        n = max(len(a.fields), len(b.fields))
+        fa = list(a.fields) + [None] * (n - len(a.fields))
+        fb = list(b.fields) + [None] * (n - len(b.fields))
+        return Agg([ite_val(g, x, y, memo) for x, y in zip(fa, fb)], 'vecitems')
     if isinstance(a, EnumV) and isinstance(b, EnumV):
         vs = {}
         for k in set(a.variants) | set(b.variants):
@@ -591,6 +596,8 @@ class Executor:
         self.memo_pure = True
         self.abstract_types = {}       # type base name -> bit width: values of that type are opaque tokens with equality only
         self.havoc_log = []
+        self.vec_new_slots = 4         # slots of a Vec::new() in the fixed-slot model
+        self.vec_input_slots = 0       # > 0: symbolic Vec<T> inputs get this many element slots and a symbolic length
         self.havoc_patterns = []       # regexes of callees whose result is an unconstrained value of the destination type
         self.var_bounds = {}           # name of a bit-vector variable -> (lo, hi) known from the harness precondition
         self.key_cursors = True        # never merge states that disagree on a concrete usize local
@@ -671,6 +678,15 @@ class Executor:
             parts = [p for p in split_top(ty[1:-1]) if p]
             return Agg([self.fresh_value(p, '%s.%d' % (name, i), depth, env, expand) for i, p in enumerate(parts)])
         b = strip_paths(base_name(ty))
+        if b == 'Vec' and self.vec_input_slots > 0 and (expand is None or expand('Vec')):
+            import mirmodels
+            k = self.vec_input_slots if depth > 0 else 0
+            elem_t = generic_args(ty)[0]
+            items = [self.fresh_value(elem_t, '%s[%d]' % (name, i), depth - 1, env, expand) for i in range(k)]
+            ln = z3.BitVec(name + '.len', 64)
+            self.assume(z3.ULE(ln, bv(k, 64)))
+            self.var_bounds[name + '.len'] = (0, k)
+            return Model('vec', items=Agg(items + [None], 'vecitems'), len=ln, cap=bv(k, 64))
         if b == 'Box':
             if depth <= 0:
                 return BoxV(None)
@@ -1725,6 +1741,13 @@ class Executor:
             selfty, trait, meth = strip_paths(m.group(1)), strip_paths(m.group(2)), m.group(3)
             hits = [e for e in self.impl_index if e['method'] == meth and e['trait'] == trait
                     and _type_match(e['self'], selfty)]
+            if len(hits) > 1 and '::' in m.group(2):
+                # several modules define a trait of this name: use the module path of the trait
+                mod = m.group(2).rsplit('::', 1)[0].split('::')[-1]
+                h2 = [e for e in hits if e['name'].startswith(mod + '::') or ('::' + mod + '::') in e['name']
+                      or ('/' + mod + '.rs') in e['name']]
+                if h2:
+                    hits = h2
             if len(hits) == 1:
                 return dump.get(hits[0]['name'], hits[0]['which'])
             return None
@@ -1800,7 +1823,13 @@ def _val_key(v):
     if isinstance(v, ValRef):
         k = _val_key(v.val)
         return None if k is None else ('r', k)
-    if isinstance(v, (EnumV, Agg, BoxV, BoxPtr, SliceRef, Opaque, Unit, FnItem)):
+    if isinstance(v, Agg):
+        # an aggregate that carries a mutable reference (closure captures, buffers) is not a pure argument
+        for f in v.fields:
+            if isinstance(f, (PlaceRef, MutSliceRef, Model)) or (isinstance(f, Agg) and _val_key(f) is None):
+                return None
+        return ('o', id(v))
+    if isinstance(v, (EnumV, BoxV, BoxPtr, SliceRef, Opaque, Unit, FnItem)):
         return ('o', id(v))
     return None
 
